@@ -21,6 +21,7 @@ class Ctx:
         self.tier = tier
         self.thash = extract.tree_hash()
         self._dbs = {}
+        self.main_config = extract.MAIN
 
     def db(self, config):
         if config not in self._dbs:
@@ -30,7 +31,7 @@ class Ctx:
 
     @property
     def main(self):
-        return self.db(extract.MAIN)
+        return self.db(self.main_config)
 
     def ws_configs(self):
         return extract.THOROUGH_WS if self.tier == 'thorough' else extract.QUICK_WS
@@ -52,6 +53,14 @@ def run_property(prop, tier, replay=None):
     mod = importlib.import_module('props.' + prop.lower())
     try:
         mod.run(ctx, rep)
+        if tier == 'thorough' and getattr(mod, 'THOROUGH_MAIN_CONFIGS', None):
+            # the same rules again with another build configuration as the main program database
+            # (other hash / Stone version / no_std error enums); equal instance keys count once
+            for cname in mod.THOROUGH_MAIN_CONFIGS:
+                ctx.main_config = cname
+                rep.note('extra_main_config_' + cname, 'analysed')
+                mod.run(ctx, rep)
+            ctx.main_config = extract.MAIN
     except facts.AnalysisIncomplete as e:
         rep.fail_closed(e.rule, e.reason)
     except extract.ExtractError as e:
